@@ -305,7 +305,17 @@ class Ledger:
             if len(orphans) == 1 and len(mine_here) == 1:
                 tail = orphans[0][0][len(prefix):].split("#")[0]
                 opaque = re.sub(r"^(index|index_mut|get|get_mut) on \S+ with ", "", tail)
-                if re.fullmatch(r"[A-Za-z_][A-Za-z_0-9]*", opaque):
+                # ... but only when the spelled-out value is the plain conversion of a span into a range (the only thing such a local
+                # ever held): anything computed differently is a new site and needs its own argument
+                conv = False
+                if len(site.operands) >= 2:
+                    x = site.operands[-1]
+                    while x[0] in ("ref", "deref"):
+                        x = x[1]
+                    if x[0] == "call" and re.search(r"(Span::as_range|convert::Into<.*Range<usize>>>::into|convert::From<.*Span>>::from)$", str(x[1])) and len(x[2]) == 1 \
+                            and "span" in expr_str(x[2][0], 120):
+                        conv = True
+                if conv and re.fullmatch(r"[A-Za-z_][A-Za-z_0-9]*", opaque):
                     return orphans[0][1]
         return None
 
